@@ -66,6 +66,9 @@ package flyt
 //@     requires [C05] !cancelled
 //@     requires [C20] nExec > 0 && waitOf(node) > 0 ==> now >= lastEnd + waitOf(node)
 //@     effect ph = 2; nExec++; lastRes = v; lastErr = e; attErr = e; lastEnd = now
+// the only blocking wait is the one between two attempts: none before the first attempt, none after the last
+//@   on select any()
+//@     requires [C20] nExec > 0 && nExec < budget(node)
 //@   on call FallbackNode.ExecFallback(n, p, e0) returns (v, e)
 //@     requires [C01,C17] n == node && ph == 2 && lastErr != nil && nFb == 0
 //@     requires [C02] nExec == budget(node) && attErr != nil && p == pv && e0 == attErr
@@ -928,6 +931,9 @@ package flyt
 //@     requires [C11] !cancelled
 //@     requires [C20] nExec > 0 && waitOf(node) > 0 ==> now >= lastEnd + waitOf(node)
 //@     effect nExec++; lastRes = v; lastErr = e; attErr = e; lastEnd = now
+// the only blocking wait is the one between two attempts: none before the first attempt, none after the last
+//@   on select any()
+//@     requires [C20] nExec > 0 && nExec < budget(node)
 //@   on call FallbackNode.ExecFallback(n, p, e0) returns (v, e)
 //@     requires [C07] n == node && p == box(item, Result) && nFb == 0 && attErr != nil && e0 == attErr
 //@     requires [C02] nExec == budget(node)
